@@ -20,4 +20,8 @@ import ImathVerif.Props.C13
 import ImathVerif.Props.C16
 import ImathVerif.Props.C10
 import ImathVerif.Props.C09
+import ImathVerif.Props.C09Align
+import ImathVerif.Props.C09Next
+import ImathVerif.Props.C09Quat
 import ImathVerif.Props.C15
+import ImathVerif.Props.C12
